@@ -21,6 +21,7 @@ import contextlib
 import functools
 import json
 import os
+import pathlib
 import shutil
 import sys
 import traceback
@@ -56,9 +57,11 @@ class Recorder:
             parts.pop()
         if parts and parts[0] == "p-stubs":
             return "s"
+        mid = model_id(self.cfg, ".".join(parts)) or "?" + ".".join(parts)
         if p.endswith(".pyi") and os.path.exists(p[:-1]):
-            return "s"                      # __init__.pyi next to __init__.py: the in-package stubs of p
-        return model_id(self.cfg, ".".join(parts)) or "?" + ".".join(parts)
+            # a stub file next to its source: the in-package stubs of p ("s"), or of a sub-module ("as" / "bs")
+            return "s" if mid == "p" else mid + "s"
+        return mid
 
     def mid_from_name(self, name: str) -> str | None:
         if name == MISSING_DEP:
@@ -119,6 +122,8 @@ def install_taps(griffe):
             return "LoadingError"
         if isinstance(exc, ModuleNotFoundError):
             return "ModuleNotFoundError"
+        if isinstance(exc, FileNotFoundError):
+            return "FileNotFoundError"
         if isinstance(exc, ImportError):
             return "ImportError"
         if isinstance(exc, SystemExit):
@@ -133,10 +138,13 @@ def install_taps(griffe):
         rec = REC
         if rec is None:
             return orig_find_spec(self, module, **kw)
-        top = str(module).split(".", 1)[0]
+        top = os.path.basename(str(module)).split(".", 1)[0]
         pkg = rec.mid_from_name(top) or "?" + top
         try:
             res = orig_find_spec(self, module, **kw)
+        except FileNotFoundError:
+            rec.emit("FindSpec", pkg=pkg, res="nofile", stubs=False, viastubs=False)
+            raise
         except ModuleNotFoundError:
             rec.emit("FindSpec", pkg=pkg, res="notfound", stubs=False, viastubs=False)
             raise
@@ -158,7 +166,7 @@ def install_taps(griffe):
         rec = REC
         if rec is None:
             return orig_load(self, objspec, **kw)
-        top = str(objspec).split(".", 1)[0]
+        top = os.path.basename(str(objspec)).split(".", 1)[0]
         pkg = rec.mid_from_name(top) or "?" + top
         rec.emit("Load" if pkg == "p" else "ResolveExternal", pkg=pkg, depth=rec.depth)
         rec.depth += 1
@@ -426,13 +434,19 @@ def run_case(case: dict, workdir: str, ext_so: str | None) -> dict:
         uni = universe_names(cfg)
         leaked_before = sorted(n for n in mods0 if n in uni)
         ext = {"true": True, "false": False, "none": None}[cfg["external"]]
+        form = cfg.get("objspec", "name")
+        objspec = {"name": "p", "relpath": "p", "abspath": pathlib.Path(b.sp, "p")}[form]
+        cwd0 = os.getcwd()
+        if form == "relpath":
+            os.chdir(b.sp)
         REC = rec
         outcome = "Return"
         try:
             griffe.load(
-                "p",
+                objspec,
+                submodules=cfg.get("submodules", True),
                 search_paths=[b.sp],
-                try_relative_path=False,
+                try_relative_path=form == "relpath",
                 allow_inspection=cfg["allow"],
                 force_inspection=cfg["force"],
                 find_stubs_package=cfg["findstubs"],
@@ -443,6 +457,8 @@ def run_case(case: dict, workdir: str, ext_so: str | None) -> dict:
             outcome = "LoadingError"
         except ModuleNotFoundError:
             outcome = "ModuleNotFoundError"
+        except FileNotFoundError:
+            outcome = "FileNotFoundError"
         except ImportError:
             outcome = "ImportError"
         except SystemExit:
@@ -456,6 +472,7 @@ def run_case(case: dict, workdir: str, ext_so: str | None) -> dict:
             else:
                 rec.emit("Raise", exc=outcome, **_path_fields())
             REC = None
+            os.chdir(cwd0)
         with open(b.sentinel) as fh:
             ran = [ln.strip() for ln in fh if ln.strip()]
         delta = sorted(set(sys.modules) - mods0)
